@@ -310,6 +310,14 @@ Theorem C02_newton_old_never_warns :
 Proof. exact (@newton_old_never_warns). Qed.
 Print Assumptions C02_newton_old_never_warns.
 
+(** witness: budget 1, a body that never stops -- the repaired loop warns, the old one is silent *)
+Theorem C02_newton_old_silent_witness :
+  snd (newton_loop (fun n : nat => (S n, false)) 1 0) = true
+  /\ snd (newton_loop_old (fun n : nat => (S n, false)) 1 0) = Some false
+  /\ fst (newton_loop_old (fun n : nat => (S n, false)) 1 0) = fst (newton_loop (fun n : nat => (S n, false)) 1 0).
+Proof. exact newton_old_silent_witness. Qed.
+Print Assumptions C02_newton_old_silent_witness.
+
 Theorem C02_newton_old_same_state :
   forall A (body : A -> A * bool) kmax x, fst (newton_loop_old body kmax x) = fst (newton_loop body kmax x).
 Proof. exact (@newton_old_same_state). Qed.
